@@ -72,6 +72,18 @@ theorem source_bit_string_length_nonneg (c : Bytes) (v n : Int)
 example : GenK.bitsDecode [0x09, 0xFF, 0xFF] 3 = .error (.lib "PyAsn1Error") := by rfl
 example : GenK.bitsDecode [0x03] 1 = .error (.lib "PyAsn1Error") := by rfl
 
+/-- **NULL contents, at the source level: accepted empty, refused otherwise - by the library's error** (the translated
+    `NullPayloadDecoder.valueDecoder`): any contents octets at all are "Unexpected n-octet substrate for Null", a constructed
+    identifier is "Simple tag format expected"; nothing else can come out -/
+theorem source_null_contents_fail_cleanly (notSimple : Bool) (c : Bytes) :
+    GenK.nullDecode notSimple (Kernels.bytesInts c) ((c.length : Nat) : Int) =
+      if !notSimple && c.isEmpty then .ok 0 else .error (.lib "PyAsn1Error") := by
+  rw [Kernels.nullDecode_kernel]
+  cases notSimple <;> cases c <;> simp
+
+example : GenK.nullDecode false [] 0 = .ok 0 := by rfl
+example : GenK.nullDecode false [0] 1 = .error (.lib "PyAsn1Error") := by rfl
+
 /-- the decoders' error state for unknown tags is "raise a library error" in all three codecs
     (generated from `SingleItemDecoder.defaultErrorState`; 8 = stErrorCondition) -/
 theorem default_error_state :
